@@ -11,7 +11,8 @@ type scenario struct {
 	Format  string `json:"format"` // "text" "om" "scripted"
 	Keep    bool   `json:"keep"`
 	ParseST bool   `json:"parse_st"`
-	NoEOF   bool   `json:"no_eof,omitempty"` // om: payload lacks "# EOF"; text: trailing garbage; scripted: failAt
+	Ignore  bool   `json:"ignore_native,omitempty"` // protobuf: IgnoreNativeHistograms
+	NoEOF   bool   `json:"no_eof,omitempty"`        // om: payload lacks "# EOF"; text: trailing garbage; scripted: failAt
 	FailAt  int    `json:"fail_at,omitempty"`
 	Shape   string `json:"shape"`
 	es      []ent
